@@ -387,6 +387,11 @@ func genCase(t *rapid.T) gsim.Case {
 		Quiesce:       true,
 	}
 	c.MultiTopic = c.Topics > 1 && rapid.Bool().Draw(t, "multiTopic")
+	mixStratum := rapid.IntRange(0, 5).Draw(t, "mixStratum") == 0
+	if mixStratum {
+		// one CommitMessages call carrying messages of two topics in alternating order
+		c.Topics, c.MultiTopic = 2, true
+	}
 	for i := 0; i < c.Topics; i++ {
 		n := rapid.IntRange(1, 4).Draw(t, "partitions")
 		c.Partitions = append(c.Partitions, n)
@@ -400,6 +405,11 @@ func genCase(t *rapid.T) gsim.Case {
 		c.CommitIntervalMs = append(c.CommitIntervalMs, rapid.SampledFrom([]int{0, 0, 5, 20}).Draw(t, "commitInterval"))
 	}
 	c.Steps = append(c.Steps, gsim.Step{Op: "join", Member: 0})
+	if mixStratum {
+		c.Steps = append(c.Steps, gsim.Step{Op: "append", Topic: 0, Part: 0, N: 6}, gsim.Step{Op: "append", Topic: 1, Part: 0, N: 6},
+			gsim.Step{Op: "fetch", Member: 0, N: 8}, gsim.Step{Op: "commit", Member: 0, Pick: 7, UpTo: true, Mix: true},
+			gsim.Step{Op: "fetch", Member: 0, N: 4}, gsim.Step{Op: "commit", Member: 0, Pick: 3, UpTo: true, Mix: true})
+	}
 	joined := map[int]bool{0: true}
 	n := rapid.IntRange(3, 28).Draw(t, "steps")
 	for i := 0; i < n; i++ {
@@ -415,7 +425,11 @@ func genCase(t *rapid.T) gsim.Case {
 		case 2, 3, 4, 5:
 			c.Steps = append(c.Steps, gsim.Step{Op: "fetch", Member: m, N: rapid.IntRange(1, 8).Draw(t, "n")})
 		case 6, 7, 8:
-			c.Steps = append(c.Steps, gsim.Step{Op: "commit", Member: m, Pick: rapid.IntRange(0, 20).Draw(t, "pick"), UpTo: rapid.Bool().Draw(t, "upTo")})
+			st := gsim.Step{Op: "commit", Member: m, Pick: rapid.IntRange(0, 20).Draw(t, "pick"), UpTo: rapid.Bool().Draw(t, "upTo")}
+			if c.MultiTopic && rapid.Bool().Draw(t, "mix") {
+				st.UpTo, st.Mix = true, true
+			}
+			c.Steps = append(c.Steps, st)
 		case 9:
 			c.Steps = append(c.Steps, gsim.Step{Op: "read", Member: m})
 		case 10:
